@@ -47,22 +47,24 @@ def run_check(tier, seed):
         'FsOptions::all() mask and the session buffer size expression are re-read from the source on every run']
     ev.assumptions = ['page size 4096 (max_write = 256 pages); with 64 KiB pages the write-size bound does not hold and the statement says so',
                       'clients are coherent: FUSE_INIT_EXT is only sent by minor >= 36 clients (others are exercised for model correspondence only)']
-    broken = []; findings = []
+    broken = []; findings = []; import time as _t; ph = {}; t0 = _t.time()
     try:
         write_if_changed(os.path.join(COQ, 'Gen/RustABI.v'), rust_abi.emit_coq(rust_abi.translate(REPO)))
         bufsize = session_bufsize()
     except rust_abi.TranslateError as ex:
         broken.append({'kind': 'translator', 'item': 'c12 source constants', 'error': str(ex)}); bufsize = SESSION_BUFSIZE
-    audit = std_audit(ev, PROP, broken)
+    audit = std_audit(ev, PROP, broken); ph['audit'] = round(_t.time() - t0, 1)
     ok, out, bindir = cargo_build(['codec', 'inittoggle'])
     if not ok:
         broken.append({'kind': 'harness-build', 'log': out[-3000:]})
         return finish(ev, PROP, findings, broken)
+    ph['build'] = round(_t.time() - t0, 1)
     rng = random.Random(seed)
     n = 300 if tier == 'quick' else 6000
     cases = gen_init_cases(rng, n)
     rc, obs, raw = S.run_impl(cases, bindir=bindir)
     if rc != 0 or len(obs) != len(cases): broken.append({'kind': 'harness-run', 'log': raw[-1500:]})
+    ph['impl'] = round(_t.time() - t0, 1)
     mask = S.fsopt_mask()
     exprs = []; meta = []; nontriv = set(); hist = collections.Counter()
     for c in cases:
@@ -103,7 +105,9 @@ def run_check(tier, seed):
                                  % (q['fields']['major'], q['fields']['minor'], q['fields']['flags'], q.get('flags2'), c['fs'][1] if c['fs'][0] == 'init' else 0,
                                     ' [flags2 set without FUSE_INIT_EXT in flags]' if ext_lost else ''),
                          'sig': {'part': 'reply', 'ext_marker_missing': ext_lost}, 'input': S.case_json(c, o), 'reply_fields': det})
+    ph['spec'] = round(_t.time() - t0, 1)
     bad_idx = S.model_vs_impl('c12', cases, obs, mask, broken)
+    ph['model'] = round(_t.time() - t0, 1)
     failed_ids = set(f['input']['id'] for f in findings)
     for i in bad_idx:
         if cases[i]['id'] not in failed_ids:
@@ -111,6 +115,7 @@ def run_check(tier, seed):
     # toggles in Vfs / passthrough / overlay
     import c12_toggles
     tn, tnon, tsamples = c12_toggles.run(rng, tier, bindir, findings, broken)
+    ph['toggles'] = round(_t.time() - t0, 1); ev.cov['phase_end_s'] = ph
     ev.cov['evaluations'] = len(obs) + tn; ev.cov['distinct_nontrivial'] = len(nontriv) + tnon
     ev.cov['spec_evaluations'] = len(exprs); ev.cov['model_vs_impl_disagreements'] = len(bad_idx); ev.cov['toggle_cases'] = tn
     ev.cov['rule'] = ('INIT requests over (major in {<7,7,>7}, minor incl. 0,4,5,22,23,35,36,38, flags single bits and random, INIT_EXT with/without the 48-byte tail, flags2 single bits and random) '
